@@ -1,5 +1,6 @@
 """C07 — Resolver.get fails cleanly: relax discipline and error classes."""
 
+from ..model import AnalysisError
 from . import resolver_rules as R
 from .common import resolution_stats, typer_for
 
@@ -55,3 +56,5 @@ def run(ctx):
     ctx.floor("R4", 10)
     ctx.extra["functions_reachable_from_get"] = [f.qual for f in funcs]
     ctx.extra.update(resolution_stats(typer))
+    if ctx.extra.get("undecided") and not ctx.new_findings():
+        raise AnalysisError("; ".join(ctx.extra["undecided"][:2]))
